@@ -122,6 +122,10 @@ func (e *c13Env) context(data int) *plush.Context {
 	c.Set("d", data)
 	c.Set("animal", c13Animals[data%2])
 	c.Set("deep", true)
+	own := Person{Name: "own", Kid: &Person{Name: "ownkid"}}
+	c.Set("Own", own)
+	c.Set("rps", []struct{ Own Person }{{own}, {Person{Name: "o2", Kid: &Person{Name: "k2"}}}})
+	c.Set("mkr", func() struct{ Own Person } { return struct{ Own Person }{own} })
 	// a time value; only the odd data sets choose a format of their own for it
 	c.Set("when", time.Date(2021, 3, 4, 5, 6, 7, 0, time.UTC))
 	if data%2 == 1 {
@@ -165,6 +169,9 @@ const c13SelfPartial = "<%= if (deep) { %>\n\n\n<%= partial(\"self\", {\"deep\":
 func c13Family() []string {
 	out := []string{
 		c13SelfPartial,
+		// the same dotted names as in the probes, but behind an index / a call
+		`<%= rps[0].Own.Name %>|<%= mkr().Own.Name %>|<%= rps[1].Own.Kid.Name %>`,
+		`<%= for (r) in rps { %><%= r.Own.Name %><% } %>|<%= rps[0].Own.Kid.Name %>`,
 		// the printed form of a time depends on the context's TIME_FORMAT only, never on earlier renders
 		`<%= when %>;<%= [when][0] %>`,
 	}
@@ -255,7 +262,7 @@ func init() {
 			return s
 		},
 		Run:  c13Run,
-		Rule: "programs: a 35-template corpus covering every construct + a family of hash literals (1..4 entries, identifier/string/duplicate keys, side-effecting values), map loops, data maps, method calls on receivers of two dynamic types, a time value printed with and without a TIME_FORMAT in the context, a template that renders itself as a partial and fails inside a helper block of the inner execution, empty array/hash literals that are kept and written to, failing templates and templates that do not parse. (paths) every program x 2 data sets: fresh parse, 3 repeated executions of one parsed template, Clone, cache cold, cache warm, cache off again — all (out, err, side-effect log) equal; deep structural hash (reflection over every field, cycle-safe) of the parsed program equal before and after every execution. (cross) every probe template (contentOf of every block name the corpus defines, unknown variables / functions, a time, a partial, a regexp match) renders the same before and after every corpus program was executed with fresh contexts, cache off and on; (paths, cache) a text differing only in surrounding whitespace is another template: from the warm cache it renders what a fresh parse of it renders. (env) every map-iteration call made during an execution is an environment choice point (runtime overlay): all single deviations (two in thorough) from the default order give the same (out, err, log); for-over-map output is compared as a multiset. (hist) explicit enumeration of histories over {fresh parse+exec, exec of a long-lived template, Clone+exec, Render through the cache, toggle CacheEnabled, CacheSet} x 6 templates (a partial whose feeder text depends on the context, ok with an empty hash literal that is written to, failing inside a block on line 3, failing at top level, method call, one that does not parse) x 2 data sets, from a cold and a warm cache; after every operation the result equals the pristine reference for (text, data), every live template's program hash is unchanged and a cached template was parsed from its key. Non-trivial: histories with >=2 operations / programs with a map or side effect.",
+		Rule: "programs: a 35-template corpus covering every construct + a family of hash literals (1..4 entries, identifier/string/duplicate keys, side-effecting values), map loops, data maps, method calls on receivers of two dynamic types, a time value printed with and without a TIME_FORMAT in the context, a template that renders itself as a partial and fails inside a helper block of the inner execution, empty array/hash literals that are kept and written to, failing templates and templates that do not parse. (paths) every program x 2 data sets: fresh parse, 3 repeated executions of one parsed template, Clone, cache cold, cache warm, cache off again — all (out, err, side-effect log) equal; deep structural hash (reflection over every field, cycle-safe) of the parsed program equal before and after every execution. (cross) every probe template (contentOf of every block name the corpus defines, unknown variables / functions, a time, a partial, a regexp match) renders the same before and after every corpus program was executed with fresh contexts, cache off and on - also for a probe that was parsed before and stays alive (its program hash, its executions and its Clone are unchanged by the other template's parse); (paths, cache) a text differing only in surrounding whitespace is another template: from the warm cache it renders what a fresh parse of it renders. (env) every map-iteration call made during an execution is an environment choice point (runtime overlay): all single deviations (two in thorough) from the default order give the same (out, err, log); for-over-map output is compared as a multiset. (hist) explicit enumeration of histories over {fresh parse+exec, exec of a long-lived template, Clone+exec, Render through the cache, toggle CacheEnabled, CacheSet} x 6 templates (a partial whose feeder text depends on the context, ok with an empty hash literal that is written to, failing inside a block on line 3, failing at top level, method call, one that does not parse) x 2 data sets, from a cold and a warm cache; after every operation the result equals the pristine reference for (text, data), every live template's program hash is unchanged and a cached template was parsed from its key. Non-trivial: histories with >=2 operations / programs with a map or side effect.",
 		Bound: func(th bool) string {
 			if th {
 				return "histories of length <=4 over the full 56-operation alphabet; all pairs of map-order deviations"
@@ -576,7 +583,7 @@ func c13Run(t *engine.T, shard string) {
 				names[m[1]] = true
 			}
 		}
-		probes := []string{`<%= y %>`, `<%= h %>|<%= f(1) %>`, `[<%= when %>]`, `<%= partial("pd", {"a": 1, "b": 2, "c": 3}) %>`, `<%= sv ~= "^a" %>`, `<%= {"a": 1}["a"] %>|<%= len([1, 2]) %>`}
+		probes := []string{`<%= Own.Name %>`, `<%= Own.Kid.Name %>|<%= animal.Name() %>`, `<%= y %>`, `<%= h %>|<%= f(1) %>`, `[<%= when %>]`, `<%= partial("pd", {"a": 1, "b": 2, "c": 3}) %>`, `<%= sv ~= "^a" %>`, `<%= {"a": 1}["a"] %>|<%= len([1, 2]) %>`}
 		for n := range names {
 			probes = append(probes, `<%= contentOf("`+n+`") %>`, `<%= contentOf("`+n+`") { %>default<% } %>`)
 		}
@@ -587,11 +594,31 @@ func c13Run(t *engine.T, shard string) {
 				t.Case(fmt.Sprintf("cross probe %q after %q", b, a), true, func() (string, *engine.Fail) {
 					plush.CacheEnabled = false
 					before := c13Fresh(b, 0)
+					// a parsed probe that stays alive while the other template is parsed and executed
+					kept, kerr := plush.NewTemplate(b)
+					var h0 uint64
+					if kerr == nil {
+						h0 = astHash(kept)
+						if r := c13Exec(kept, 0); r != before {
+							return "", c13Loose("nondeterministic", "parsed probe renders %+v, fresh render %+v", r, before)
+						}
+					}
 					c13Fresh(a, 0)
 					c13Fresh(a, 1)
 					after := c13Fresh(b, 0)
 					if before != after {
 						return "", c13Loose("nondeterministic", "probe renders %+v before and %+v after another template was executed", before, after)
+					}
+					if kerr == nil {
+						if astHash(kept) != h0 {
+							return "", c13Loose("program-mutated", "the parsed program of the probe changed while another template was parsed and executed")
+						}
+						if r := c13Exec(kept, 0); r != before {
+							return "", c13Loose("nondeterministic", "the parsed probe renders %+v after another template was parsed and executed, before %+v", r, before)
+						}
+						if r := c13Exec(kept.Clone(), 0); r != before {
+							return "", c13Loose("nondeterministic", "a Clone of the parsed probe renders %+v after another template was parsed and executed, before %+v", r, before)
+						}
 					}
 					plush.VerifCacheReset()
 					plush.CacheEnabled = true
